@@ -136,6 +136,48 @@ def sequential_outcomes(d, scn):
     return set((o["vals"], o["replies"]) for o in run_model(p).values())
 
 
+def stall_cases():
+    """sequential histories after which every later command must still complete (C06: a command that
+    fails, skips a key or panics releases everything it held)"""
+    from .corpora import op
+    mk = [op(0, "SET", "s1", "v"), op(0, "HSET", "h1", "f", "v"), op(0, "SADD", "t1", "a"), op(0, "ZADD", "z1", "1", "a"), op(0, "RPUSH", "l1", "a")]
+    touch = [op(0, "APPEND", "s1", "x"), op(0, "HSET", "h1", "g", "w"), op(0, "SADD", "t1", "b"), op(0, "ZADD", "z1", "2", "b"), op(0, "RPUSH", "l1", "b"),
+             op(0, "DEL", "s1", "h1", "t1", "z1", "l1"), op(0, "DBSIZE")]
+    cases = []
+    probes = [["SCAN", "0", "COUNT", "10", "TYPE", "string"], ["SCAN", "0", "COUNT", "10", "TYPE", "hash"], ["SCAN", "0", "MATCH", "s*", "COUNT", "2"],
+              ["KEYS", "*"], ["LPUSH", "s1", "x"], ["HGET", "s1", "f"], ["INCR", "h1"], ["SINTER", "t1", "s1"], ["ZUNIONSTORE", "d", "2", "z1", "s1"],
+              ["RENAME", "nosuch", "s1"], ["LSET", "l1", "9", "x"], ["SMOVE", "t1", "s1", "a"], ["EXISTS", "s1", "s1"], ["MGET", "s1", "h1"], ["TYPE", "s1"]]
+    for i, pr in enumerate(probes):
+        cases.append(("stall-%d-%s" % (i, pr[0]), "mem", mk + [op(0, *pr)] + touch))
+    return cases
+
+
+def run_stalls(pid, out, d, known, confirmed, pf, stats):
+    """C06 only: run the stall histories through the trace harness (5 s per command, then the instance counts as dead)"""
+    script = os.path.join(d, "stall.script")
+    T.write_script(script, stall_cases())
+    r = T.TraceRun(d, "stall").run(script=script)
+    if not r.ok:
+        out.violation({"property": pid, "broken": "run stall", "detail": r.err}, nofail=True)
+        return
+    stats["stall_steps"] = r.msum[1]
+    for cid in r.order:
+        c = r.cases[cid]
+        for i, res in enumerate(c["results"]):
+            if res.split()[:1] in (["TIMEOUT"], ["DEAD"]):
+                sig = "CONC/stall:" + c["steps"][i].split()[2]
+                v = {"case": cid, "step": i + 1, "signature": sig, "text": "the command never replied (5 s); every command before it did"}
+                if sig in known:
+                    confirmed.setdefault(sig, v["text"])
+                else:
+                    v["reason"] = "a command stalls for ever on a sequential history"
+                    out.violation(T.replay_of(pid, r, v))
+                break
+    for case, (step, kind, detail) in list(r.mdiffs.items())[:1]:
+        if not any(res.split()[:1] in (["TIMEOUT"], ["DEAD"]) for res in r.cases[case]["results"]):
+            out.violation(T.replay_of(pid, r, {"case": case, "step": step, "detail": detail}, {"broken": "correspondence model/implementation on the stall histories"}), nofail=True)
+
+
 def run(pid, tier, seed, replay=None):
     out = C.Outcome(pid, tier, seed)
     prep, pf, bad = PS._common_start(pid)
@@ -156,6 +198,21 @@ def run(pid, tier, seed, replay=None):
     stats = {"scenarios": 0, "ambiguous_skipped": 0, "replayed": 0, "model_diffs": 0, "grants": 0, "deadlocks": 0, "nonlinearizable": 0, "linearizable": 0}
     confirmed, dist, samples = {}, {}, []
     try:
+        if replay and "scenario" not in json.load(open(replay)):
+            # a sequential stall history (trace-style replay)
+            rp = json.load(open(replay))
+            script = os.path.join(d, "replay.script")
+            T.write_script(script, [("replay", rp.get("backend", "mem"), rp["script"])])
+            r = T.TraceRun(d, "replay").run(script=script)
+            bad_step = None
+            if r.ok:
+                for i, res in enumerate(r.cases["replay"]["results"]):
+                    if res.split()[:1] in (["TIMEOUT"], ["DEAD"]):
+                        bad_step = i + 1
+                        break
+            if not r.ok or bad_step:
+                out.violation(dict(rp, replayed="the command at step %s never replied" % bad_step if bad_step else r.err))
+            return out.finish()
         if replay:
             rp = json.load(open(replay))
             scns = [tuple(rp["scenario"])]
@@ -226,6 +283,8 @@ def run(pid, tier, seed, replay=None):
                 out.violation(replay_obj, nofail=True)
             if len(samples) < 3:
                 samples.append(["keys " + v, "threads " + c, "grants " + s[:60], "outcome " + io["line"]])
+        if pid == "C06" and not replay:
+            run_stalls(pid, out, d, known, confirmed, pf, stats)
         for sig in sorted(confirmed):
             out.known_confirmed.append(known[sig])
         cov["evaluations"] = stats["grants"]
